@@ -168,11 +168,13 @@ func (c *FnCtx) eventCall(st *State, ins ssa.Instruction, cc *ssa.CallCommon) ma
 			if pt == "" {
 				continue
 			}
-			if fl.iter != nil {
+			if strings.HasPrefix(pt, "lazy:") {
 				// evaluate the pattern now, in the state of the call
 				env := c.baseEnv(st)
 				saveLoop := c.curLoop
-				c.curLoop = fl.iter
+				if fl.iter != nil {
+					c.curLoop = fl.iter
+				}
 				if w, isCall := fl.args[i].(*eCall); isCall {
 					if id, ok := w.fun.(*eIdent); ok && id.name == "where" && len(w.args) == 2 {
 						// where(x, cond): the actual argument, bound to x, satisfies cond
@@ -446,6 +448,10 @@ func (c *FnCtx) doCallInner(st *State, v ssa.Value, cc *ssa.CallCommon, ins ssa.
 	if ignoreContract && !c.spec.options["havoc:"+callee.Name()] {
 		// havoc:* keeps pure callees without preconditions: they are just function symbols
 		if sp := c.specOf(callee); sp != nil && sp.pure && len(sp.requires) == 0 {
+			ignoreContract = false
+		}
+		// `option keep:<callee>` keeps the contract of one callee under havoc:*
+		if c.spec.options["keep:"+callee.Name()] {
 			ignoreContract = false
 		}
 	}
